@@ -42,7 +42,7 @@ Inductive gval :=
 (* ---------- basic cursor operations ---------- *)
 
 Definition take (k : N) (bs : bytes) : res (bytes * bytes) :=
-  if k <=? len bs then Ok (firstn (N.to_nat k) bs, skipn (N.to_nat k) bs) else Err EShort.
+  match split_at k bs with Some p => Ok p | None => Err EShort end.
 
 Definition rd_be (k : nat) (bs : bytes) : res (N * bytes) :=
   '(h, t) <- take (N.of_nat k) bs ;; Ok (unbe h, t).
